@@ -559,7 +559,28 @@ func jitValue(j string) (float64, error) {
 	return 0, fmt.Errorf("unknown jitter choice %q", j)
 }
 
-func (cr *caseRunner) run(c kit.Case) (v kit.Verdict) {
+// run executes one history; a disagreement is reported only if it shows again when the same
+// history is executed a second time.  The histories are sequential and the code under test is
+// deterministic on them, so a real defect reproduces; what does not reproduce is transport
+// noise (go-redis re-sends a command whose reply timed out on an overloaded machine, and the
+// Redis node then sees e.g. the same DEL twice).  Unconfirmed disagreements are counted.
+func (cr *caseRunner) run(c kit.Case) kit.Verdict {
+	v := cr.runOnce(c)
+	if v.OK || v.Infra {
+		return v
+	}
+	v2 := cr.runOnce(c)
+	if v2.Infra {
+		return v2
+	}
+	if v2.OK {
+		cr.rep.Count("unconfirmed_disagreement", 1)
+		return v2
+	}
+	return v
+}
+
+func (cr *caseRunner) runOnce(c kit.Case) (v kit.Verdict) {
 	e := cr.e
 	v = kit.Verdict{Case: c.Index, OK: true}
 	infra := func(msg string) kit.Verdict {
@@ -885,13 +906,14 @@ func TestVerifC06Ladder(t *testing.T) {
 
 // ---------------------------------------------------------------- concurrent readers
 
-// TestVerifC06Concurrent records what concurrent readers of uncached keys do: rounds of
-// [sequential writes through Exec] ; [many goroutines QueryRow the same keys at once against a
-// slow database callback] ; [a second wave of readers] ; [TTLs as stored].  Every event gets
-// its position in the trace under the tracer's mutex (reads: at call and at return; database
-// callback: at entry and at exit), and the trace is validated by TLC against
-// spec/CacheAsideTrace.tla (at most one database query in flight per key, every reader gets the
-// current row, the database is not reached again once a query has ended, TTLs within +-5 %).
+// TestVerifC06Concurrent records what concurrent readers of uncached keys do.  Every round:
+// [sequential writes through Exec] ; [many goroutines read the same keys at once against a slow
+// database callback: QueryRow of two primary keys and QueryRowIndex of three index keys whose
+// primary key is a small integer, an integer above 2^53 and a string (handed to the keyer as
+// `any`, as the API prescribes)] ; [a second wave of readers] ; [what Redis holds].  Every
+// event gets its position in the trace under the tracer's mutex (reads: at call and at return;
+// database callbacks: at entry and at exit), and the trace is validated by TLC against
+// spec/CacheAsideTrace.tla.
 func TestVerifC06Concurrent(t *testing.T) {
 	tr, err := kit.NewTracer(kit.Env("VERIF_OUT", ""))
 	if err != nil {
@@ -914,19 +936,50 @@ func TestVerifC06Concurrent(t *testing.T) {
 		tr.Emit(kit.M{"e": "infra", "msg": err.Error()})
 		return
 	}
+	type irow struct {
+		Pk   string `json:"pk"`
+		Name string `json:"name"`
+		Data string `json:"data"`
+	}
+	type ikind struct {
+		ik, qk string // logical names of the index key and of the primary key
+		pk     any
+	}
+	kinds := []ikind{{"i:s", "q:s", int64(7)}, {"i:b", "q:b", int64(323427211229009810)}, {"i:t", "q:t", "alpha"}}
+	keyer := func(primary any) string { return "q:" + fmt.Sprint(primary) }
+	logical := map[string]string{"p:1": "p:1", "p:2": "p:2"} // Redis key -> logical name
+	for _, kd := range kinds {
+		logical[kd.ik] = kd.ik
+		logical[keyer(kd.pk)] = kd.qk
+	}
+	name := func(rk string) string {
+		if l, ok := logical[rk]; ok {
+			return l
+		}
+		return rk
+	}
 	var dbmu sync.Mutex
 	db := map[int]row{}
+	idb := map[string]irow{} // index key -> row
 	rnd := newRand(kit.Seed())
+	slow := func() { time.Sleep(time.Duration(rnd.delay()) * time.Microsecond) } // widens the window; no verdict depends on it
+	result := func(rid int, k string, err error, data string) {
+		res := e.classify(err)
+		if res == "ok" {
+			res = "row"
+		}
+		tr.Emit(kit.M{"e": "ret", "r": rid, "k": k, "res": res, "d": data})
+	}
 	read := func(rid, id int) {
 		k := pkey(id)
 		tr.Emit(kit.M{"e": "inv", "r": rid, "k": k})
 		var r row
 		err := e.conn.QueryRow(&r, e.real[k], func(_ sqlx.Conn, v any) error {
-			tr.Emit(kit.M{"e": "dbb", "k": k})
+			tr.Emit(kit.M{"e": "dbb", "k": k, "on": k})
 			dbmu.Lock()
 			d, ok := db[id]
 			dbmu.Unlock()
-			time.Sleep(time.Duration(rnd.delay()) * time.Microsecond) // a slow database widens the window; no verdict depends on it
+			slow()
 			tr.Emit(kit.M{"e": "dbe", "k": k})
 			if !ok {
 				return sqlc.ErrNotFound
@@ -934,25 +987,62 @@ func TestVerifC06Concurrent(t *testing.T) {
 			*v.(*row) = d
 			return nil
 		})
-		res := e.classify(err)
-		if res == "ok" {
-			res = "row"
-		}
-		tr.Emit(kit.M{"e": "ret", "r": rid, "k": k, "res": res, "d": r.Data})
+		result(rid, k, err, r.Data)
+	}
+	iread := func(rid int, kd ikind) {
+		tr.Emit(kit.M{"e": "inv", "r": rid, "k": kd.ik})
+		var r irow
+		err := e.conn.QueryRowIndex(&r, kd.ik, keyer,
+			func(_ sqlx.Conn, v any) (any, error) {
+				tr.Emit(kit.M{"e": "dbb", "k": kd.ik, "on": kd.ik})
+				dbmu.Lock()
+				d, ok := idb[kd.ik]
+				dbmu.Unlock()
+				slow()
+				tr.Emit(kit.M{"e": "dbe", "k": kd.ik})
+				if !ok {
+					return nil, sqlc.ErrNotFound
+				}
+				*v.(*irow) = d
+				return kd.pk, nil
+			},
+			func(_ sqlx.Conn, v, primary any) error {
+				qk := name(keyer(primary))
+				tr.Emit(kit.M{"e": "dbb", "k": qk, "on": kd.ik})
+				dbmu.Lock()
+				d, ok := idb[kd.ik]
+				dbmu.Unlock()
+				slow()
+				tr.Emit(kit.M{"e": "dbe", "k": qk})
+				if !ok || fmt.Sprint(primary) != d.Pk {
+					return sqlc.ErrNotFound // the database has no row with such a primary key
+				}
+				*v.(*irow) = d
+				return nil
+			})
+		result(rid, kd.ik, err, r.Data)
 	}
 	wave := func(n int) {
 		var wg sync.WaitGroup
 		start := make(chan struct{})
 		rid := 0
-		for _, id := range ids {
-			for j := 0; j < n; j++ {
-				rid++
-				wg.Add(1)
-				go func(rid, id int) {
-					defer wg.Done()
-					<-start
-					read(rid, id)
-				}(rid, id)
+		spawn := func(f func(rid int)) {
+			rid++
+			wg.Add(1)
+			go func(rid int) {
+				defer wg.Done()
+				<-start
+				f(rid)
+			}(rid)
+		}
+		for j := 0; j < n; j++ {
+			for _, id := range ids {
+				id := id
+				spawn(func(rid int) { read(rid, id) })
+			}
+			for _, kd := range kinds {
+				kd := kd
+				spawn(func(rid int) { iread(rid, kd) })
 			}
 		}
 		close(start)
@@ -980,16 +1070,52 @@ func TestVerifC06Concurrent(t *testing.T) {
 			}
 			tr.Emit(kit.M{"e": "write", "k": pkey(id), "d": data})
 		}
+		for _, kd := range kinds {
+			data := ""
+			if rnd.intn(5) != 0 {
+				data = fmt.Sprintf("x%d", r)
+			}
+			_, err := e.conn.Exec(func(_ sqlx.Conn) (sql.Result, error) {
+				dbmu.Lock()
+				if data == "" {
+					delete(idb, kd.ik)
+				} else {
+					idb[kd.ik] = irow{Pk: fmt.Sprint(kd.pk), Name: kd.ik, Data: data}
+				}
+				dbmu.Unlock()
+				return nil, nil
+			}, kd.ik, keyer(kd.pk))
+			if err != nil {
+				tr.Emit(kit.M{"e": "infra", "msg": "exec: " + err.Error()})
+				return
+			}
+			tr.Emit(kit.M{"e": "write", "k": kd.ik, "d": data})
+		}
 		wave(readers)
 		wave(2)
-		got, bad := e.cacheNow()
-		if bad != "" {
-			tr.Emit(kit.M{"e": "infra", "msg": bad})
-			return
+		// what Redis holds now: the set of keys first, then kind and TTL of each
+		m := e.nodes[0].m
+		rks := m.Keys()
+		ks := make([]string, 0, len(rks))
+		for _, rk := range rks {
+			ks = append(ks, name(rk))
 		}
-		for _, id := range ids {
-			code := got[pkey(id)]
-			tr.Emit(kit.M{"e": "ttl", "k": pkey(id), "kind": kindNames[code%10], "ttl": code / 10})
+		tr.Emit(kit.M{"e": "keys", "ks": ks})
+		for _, rk := range rks {
+			val, _ := m.Get(rk)
+			kind := kindPk
+			switch {
+			case val == "*":
+				kind = kindNf
+			case strings.HasPrefix(val, "{"):
+				kind = kindRow
+			}
+			ttl := m.TTL(rk)
+			if ttl%time.Second != 0 {
+				tr.Emit(kit.M{"e": "infra", "msg": fmt.Sprintf("key %s has a fractional TTL %v", rk, ttl)})
+				return
+			}
+			tr.Emit(kit.M{"e": "ttl", "k": name(rk), "kind": kindNames[kind], "ttl": int(ttl / time.Second)})
 		}
 	}
 }
